@@ -807,6 +807,7 @@ def build_pool(master_seed, scale=1.0):
             for kind in [None] + kinds:
                 pool["text"].setdefault(cn, []).append(["cobj", slot, cn, kind, ["fmt", "localdate", "d MMMM yyyy gg", rand_value("localdate")]])
                 pool["text"].setdefault(cn, []).append(["cobj", slot, cn, kind, ["names", rng.choice(["era:common", "eranames:common", "era:anno_hegirae", "era:anno_persico", "long_month_names"])]])
+                pool["text"].setdefault(cn, []).append(["cobj", slot, cn, kind, ["names", "era:common"]])
     for zid in TZ_IDS:
         pool["prov"].append(["winmap", "t2w", zid])
         pool["prov"].append(["winmap", "canon", rng.choice([zid] + TZ_ALIASES.get(zid, []))])
@@ -935,6 +936,18 @@ def build_sweep_pairs(pool, master_seed, n_pairs):
         same = [o for o in cand if (o[3] if o[0] in ("fmt", "parse", "fmtw", "fmtcust") else o[2] if o[0] == "cobj" else o[1]) == cn]
         b = rng.choice(same) if rng.random() < 0.5 and same else rng.choice(cand)
         add("format info", rng.choice([[], [], [b]]), a, b, rng.choice([[], ["cultures"]]))
+    cobjs = [o for o in texts if o[0] == "cobj"]
+    for _ in range(per * 2):
+        # one caller-owned culture object used, re-customised, used again (history only: shows at every pre-emption point)
+        if not cobjs:
+            break
+        a = rng.choice(cobjs)
+        same = [o for o in cobjs if o[1] == a[1] and o[2] == a[2] and o[3] != a[3]]
+        if not same:
+            continue
+        w1 = rng.choice(same)
+        warm = [w1] if rng.random() < 0.6 else [rng.choice(same), w1]
+        add("culture customised between uses", warm, a, rng.choice(cobjs), [])
     cust = [o for o in texts + names if o[0] in ("fmtcust", "namescust", "cobj") or (o[0] == "dtfi" and o[2] is not None)]
     for _ in range(per * 2):
         if not cust:
@@ -1240,6 +1253,13 @@ def gen_run(seed):
         cn = rng.choice(pool["names"])[1]
         same = [o for o in pool["names"] if o[1] == cn]
         material += same + rng.sample(pool["names"], 3)
+    cobj_seq = None
+    if "text" in fams and rng.random() < 0.35:
+        allc = [o for ops in pool["text"].values() for o in ops if o[0] == "cobj"]
+        if allc:
+            a = rng.choice(allc)
+            same = [o for o in allc if o[1] == a[1] and o[2] == a[2]]
+            cobj_seq = [rng.choice(same) for _ in range(rng.choice([2, 3, 5]))]
     nops = rng.choice([2, 4, 6, 10, 16]) if not many_cultures else rng.choice([20, 40])
     progs = []
     for _ in range(nthreads):
@@ -1251,6 +1271,9 @@ def gen_run(seed):
             p = [rng.choice(material) for _ in range(nops)]
             if rng.random() < 0.2:
                 p.sort(key=key)
+            if cobj_seq is not None and rng.random() < 0.7:
+                at = rng.randrange(len(p) + 1)
+                p[at:at] = cobj_seq  # a coherent use / re-customise / use sequence on one caller-owned culture object
         progs.append(p)
     spec = {"prop": PROP, "seed": seed, "mode": "hist" if nthreads == 1 else "conc", "families": fams, "threads": progs,
             "strategy": _strategy(rng, nthreads)}  # fmt: skip
